@@ -119,6 +119,28 @@ void explore09(Options const& o, std::vector<Shim*> const& shims, std::vector<Sh
         rec.add_states(static_cast<u64>(KD), static_cast<u64>(KD), static_cast<u64>(KD));
         }
       }
+      // validity limits of a division-free remainder (see C10): |x| within +-8 of 2^w / |c*P - 2^w|, c = floor or ceil(2^w / P),
+      // P in {2phi, phi, phi/2}, w in {62, 63, 64}, and of the halves and doubles of those limits
+      {
+      LocalViol lv(rec); u64 n = 0;
+      std::vector<i64> lims;
+      for( i64 P : { P2, P2 / 2, P2 / 4 } ) for( int w : { 62, 63, 64 } )
+        {
+        unsigned __int128 W = static_cast<unsigned __int128>(1) << w;
+        unsigned __int128 cd = W / static_cast<unsigned __int128>(P), cu = cd + 1;
+        unsigned __int128 ed = W - cd * P, eu = cu * P - W;
+        for( unsigned __int128 e : { ed, eu } ) if( e != 0 ) for( int sh = -1; sh <= 1; ++sh )
+          { unsigned __int128 L = W / e; L = sh < 0 ? L >> 1 : sh > 0 ? L << 1 : L; if( L > 16 && L < static_cast<unsigned __int128>(LIM) - 16 ) lims.push_back(static_cast<i64>(L)); }
+        }
+      std::sort(lims.begin(), lims.end()); lims.erase(std::unique(lims.begin(), lims.end()), lims.end());
+      for( i64 L : lims ) for( i64 d = -8; d <= 8; ++d ) for( int sgn = 0; sgn < 2; ++sgn )
+        {
+        i64 x = (L + d) * (sgn ? -1 : 1); i64 k = x / P2, rho = x % P2; if( rho < 0 ) { rho += P2; --k; } ++n;
+        i64 g = s->fm_un(op, x);
+        c.period(s, fn, rho, k, base[static_cast<size_t>(rho)], g, ob2 | (7ull << 48) | n, lv);
+        }
+      rec.add_states(n, n, n); rec.count("reciprocal_remainder_validity_limits", lims.size());
+      }
       // two-call histories over neighbouring turns, single-threaded: f(T*2phi + d1); f((T+j)*2phi + r) for every turn T of a
       // prefix, small j and residues near the quarter points; the second value must still be the base value of its residue
       // (a reduction that remembers the previous turn is exact for single calls and for ascending sweeps)
@@ -305,6 +327,32 @@ void explore10(Options const& o, std::vector<Shim*> const& shims, std::vector<Sh
       rec.add_states(static_cast<u64>(KD), static_cast<u64>(KD), static_cast<u64>(KD));
       }
     rec.count("dense_k_residues", res.size());
+    }
+    // validity limits of a division-free remainder: with c = floor or ceil(2^w / P) for the period P (and its double and half), the
+    // product form of x mod P is exact while x * |c*P - 2^w| < 2^w; the arguments within +-8 of that limit (w = 62, 63, 64) and of the
+    // limit's halves and doubles - the one place where a reciprocal-multiplication reduction that is right everywhere else goes wrong
+    {
+    LocalViol lv(rec); u64 n = 0;
+    std::vector<i64> lims;
+    for( i64 P : { PHI, 2 * PHI, PHI / 2 } ) for( int w : { 62, 63, 64 } )
+      {
+      unsigned __int128 W = static_cast<unsigned __int128>(1) << w;
+      unsigned __int128 cd = W / static_cast<unsigned __int128>(P), cu = cd + 1;
+      unsigned __int128 ed = W - cd * P, eu = cu * P - W;
+      for( unsigned __int128 e : { ed, eu } ) if( e != 0 ) for( int sh = -1; sh <= 1; ++sh )
+        { unsigned __int128 L = W / e; L = sh < 0 ? L >> 1 : sh > 0 ? L << 1 : L; if( L > 16 && L < static_cast<unsigned __int128>(LIM) - 16 ) lims.push_back(static_cast<i64>(L)); }
+      }
+    std::sort(lims.begin(), lims.end()); lims.erase(std::unique(lims.begin(), lims.end()), lims.end());
+    for( i64 L : lims ) for( i64 d = -8; d <= 8; ++d )
+      {
+      i64 x = L + d, k = x / PHI, rho = x % PHI; ++n;
+      i64 g = 0; int sg = guarded([&]{ g = s->fm_un(U_TAN, x); });
+      u64 ord = ob | (7ull << 48) | n;
+      if( sg ) { report_trap(rec, lv, s, false, U_TAN, x, 0, sg, ord); continue; }
+      c.period(s, rho, k, base[static_cast<size_t>(rho)], g, ord, lv);
+      i64 gn = s->fm_un(U_TAN, -x); c.structure(s, x, g, gn, ord, lv);
+      }
+    rec.add_states(n, 2 * n, 2 * n); rec.count("reciprocal_remainder_validity_limits", lims.size());
     }
     parallel_blocks(S.size(), o.threads, [&](size_t i, int) {
       LocalViol lv(rec);
